@@ -101,10 +101,19 @@ func (p *Proxy) ServeHTTP(w http.ResponseWriter, r *http.Request) {
 
 	start := time.Now()
 	var scrapErr error
+	forwarded := &countingWriter{w: w}
 	defer func() {
+		abort := false
 		if scrapErr != nil {
 			p.log.Errorf(scrapErr.Error())
-			w.WriteHeader(http.StatusBadRequest)
+			if forwarded.n > 0 {
+				// status 200 and a part of the body are already sent, the status code
+				// can not be changed any more: abort the response, otherwise prometheus
+				// would take the truncated body for a successful scrape
+				abort = true
+			} else {
+				w.WriteHeader(http.StatusBadRequest)
+			}
 			if tar != nil {
 				tar.LastScrapeStatistics = scrape.NewStatisticsSeriesResult()
 			}
@@ -118,11 +127,15 @@ func (p *Proxy) ServeHTTP(w http.ResponseWriter, r *http.Request) {
 			tar.ScrapeTimes++
 			tar.SetScrapeErr(start, scrapErr)
 		}
+
+		if abort {
+			panic(http.ErrAbortHandler)
+		}
 	}()
 
 	scraper := scrape.NewScraper(jobInfo, realURL.String(), p.log)
 	if stopReason == "" {
-		scraper.WithRawWriter(w)
+		scraper.WithRawWriter(forwarded)
 	}
 
 	if err := scraper.RequestTo(); err != nil {
@@ -148,6 +161,19 @@ func (p *Proxy) ServeHTTP(w http.ResponseWriter, r *http.Request) {
 	if tar != nil {
 		tar.UpdateScrapeResult(rs)
 	}
+}
+
+// countingWriter counts the body bytes forwarded to prometheus
+type countingWriter struct {
+	w http.ResponseWriter
+	n int
+}
+
+// Write implement io.Writer
+func (c *countingWriter) Write(p []byte) (int, error) {
+	n, err := c.w.Write(p)
+	c.n += n
+	return n, err
 }
 
 func translateURL(u url.URL) (job string, hash string, realURL url.URL) {
